@@ -223,6 +223,7 @@ fn check(c: &Case, obs: &mut Obs) -> Verdict {
         Ending::NotJunk => "first-line-not-junk",
     });
     obs.class(if ok { "outcome:ok" } else { "outcome:err" });
+    obs.class_if(matches!(c.ending, Ending::Lf | Ending::CrLf) && c.bytes.get(h).map(|b| b")]}'".contains(b)).unwrap_or(false), "two-junk-lines");
     obs.class_if(h > 8192, "header-longer-than-bufreader");
     obs.class_if(c.bytes.len() - h > 8192, "body-longer-than-bufreader");
     obs.class_if(c.max_read == 1, "1-byte-reads");
@@ -253,6 +254,10 @@ fn body() -> BoxedStrategy<(Vec<u8>, bool)> {
     prop_oneof![
         // (a byte order mark is not JSON white space: such a body is a document every path must refuse alike)
         6 => (lead, valid.clone()).prop_map(|(l, s)| (format!("{l}{s}").into_bytes(), !l.starts_with('\u{feff}'))),
+        // a second junk-looking line in front of the document: only ONE header line is stripped, what follows is
+        // not JSON, and every path (decoders and the two is_sourcemap forms) has to say so alike
+        1 => (proptest::sample::select(vec![")]}'\n", ")]}'\r\n", ")\n", "}]\n", "'\n)]}'\n", ")]}',\n"]), valid.clone())
+            .prop_map(|(l, s)| (format!("{l}{s}").into_bytes(), false)),
         // a complete document followed by something else (both paths have to refuse it alike)
         1 => (valid.clone(), proptest::sample::select(vec!["]", "}", " {}", "\n{\"version\":3,\"sources\":[],\"names\":[],\"mappings\":\"\"}", "\n//# sourceMappingURL=x.map", "\n)]}'\n", "x", "\u{0}", " \n\t "])).prop_map(|(s, tail)| {
             let b = format!("{s}{tail}").into_bytes();
